@@ -10,7 +10,7 @@ RULE = ('each generated table network is a program: class = (key class, block cl
 ASSUMPTIONS = ['own DES reference (FIPS 46-3 tables, self-tested; cross-checked with libcrypto DES-ECB at start when available)']
 ANCHORS = [('wb.py', 'table_rKS'), ('wb.py', 'table_rKT'), ('wb.py', 'table_M1'), ('wb.py', 'table_M2'), ('wb.py', 'table_M3'), ('wb.py', 'SRLRformat'),
            ('wb.py', 'ERLRformat'), ('wb.py', 'WhiteDES.enc'), ('wb.py', 'getrbits_T_in')]
-REQUIRED = ['wb==FIPS46-3', 'wb==crysp.des', 'KT-shape', 'M-shapes', 'M-tables-key-independent']
+REQUIRED = ['multi:wb==FIPS46-3', 'wb==FIPS46-3', 'wb==crysp.des', 'KT-shape', 'M-shapes', 'M-tables-key-independent']
 NSHARDS = 14
 SAN = {'quick': (1, 40), 'thorough': (2, 40)}
 CASE_CPU_S = 600
@@ -42,6 +42,8 @@ def cases(tier, rng):
         yield {'k': 'net', 'kc': 'rand', 'j': j}
     for j in range(10 if tier == 'quick' else 300):
         yield {'k': 'parity', 'j': j}
+    for j in range(8 if tier == 'quick' else 200):
+        yield {'k': 'multi', 'j': j}
 
 def network(K):
     from crysp.bits import Bits
@@ -88,6 +90,25 @@ def run(case, ctx, rng):
             ctx.eq('wb==FIPS46-3', got, rdes.enc(K, B), B=B, **det)
             ctx.eq('wb==crysp.des', got, call(E.enc, B), B=B, **det)
         ctx.notes['programs'] += 1
+    elif k == 'multi':
+        # several networks generated in one process for related keys (top bit / low bit / one middle bit of some bytes
+        # flipped), all built first, then evaluated interleaved on the same blocks
+        K = rng.randbytes(8) if case['j'] % 3 else b'passw0rd'
+        def flip(K, mask):
+            sel = rng.randrange(1, 256)
+            return bytes(b ^ mask if (sel >> i) & 1 else b for i, b in enumerate(K))
+        keys = [K, flip(K, 0x80), flip(K, 0x01), flip(K, 0x10), rng.randbytes(8)]
+        rng.shuffle(keys)
+        ctx.cls(('multi', case['j'] % 4))
+        nets = [call(network, kk) for kk in keys]
+        Bs = [rng.randbytes(8) for _ in range(3)] + [bytes(8)]
+        order = [(i, B) for i in range(len(keys)) for B in Bs]
+        rng.shuffle(order)
+        for i, B in order:
+            if is_exc(nets[i]):
+                ctx.eq('multi:wb==FIPS46-3', nets[i], rdes.enc(keys[i], B), K=keys[i]); continue
+            ctx.eq('multi:wb==FIPS46-3', call(nets[i][4].enc, B), rdes.enc(keys[i], B), K=keys[i], B=B, keys=keys)
+        ctx.notes['programs'] += len(keys)
     else:
         K = rng.randbytes(8)
         flips = rng.randrange(1, 256)
